@@ -65,7 +65,7 @@ impl<V> StoreModel<V> {
 }
 
 /// Arc<LFUPolicy<S>>: the clauses are those of unit u4_policy ([add.*], [pol.upd.*], [pol.rm.*])
-pub struct PolicyModel { pub charges: Ghost<Map<u64, i64>>, pub last_add: Ghost<(Seq<PolicyPair>, bool)> }
+pub struct PolicyModel { pub charges: Ghost<Map<u64, i64>>, pub last_add: Ghost<(Seq<PolicyPair>, bool)>, pub used: Ghost<int>, pub mc: Ghost<int> }
 impl PolicyModel {
     #[verifier::inline]
     pub open spec fn charged(&self, k: u64) -> bool { self.charges@.contains_key(k) }
@@ -74,6 +74,9 @@ impl PolicyModel {
         ensures
             // ghost record of the decision, so that callers' postconditions can name it
             final(self).last_add@ == ((if res.0.is_some() { res.0.unwrap()@ } else { Seq::<PolicyPair>::empty() }), res.1),
+            // [add.room] below capacity a fresh key is admitted without sampling or eviction; [add.config]
+            !old(self).charged(key) && cost <= old(self).mc@ && old(self).used@ + cost <= old(self).mc@ ==> res.1 && res.0.is_none() && final(self).charges@ == old(self).charges@.insert(key, cost) && final(self).used@ == old(self).used@ + cost,
+            final(self).mc@ == old(self).mc@,
             res.1 ==> !old(self).charged(key) && final(self).charges@.contains_pair(key, cost),                                         // [add.admitted] [add.charge]
             !res.1 ==> (final(self).charged(key) == old(self).charged(key)),                                                              // [add.oversize] [add.resident] [add.notadded]
             !res.1 && old(self).charged(key) ==> res.0.is_none(),                                                                        // [add.resident] / [add.oversize]
